@@ -39,6 +39,8 @@ type SeqDouble struct {
 	Idle   bool
 	// Inner, when set, is the real sequencer all calls are passed through to.
 	Inner coresequencer.Sequencer
+	// AfterNext, when set, runs after GetNextBatch has its answer and before it is returned (kind: batch | empty | nil | err).
+	AfterNext func(kind string)
 	// NowMs is used to timestamp pass-through replies deterministically when non-nil.
 	Submitted [][]string
 }
@@ -84,6 +86,9 @@ func (s *SeqDouble) GetNextBatch(ctx context.Context, req coresequencer.GetNextB
 			}
 		}
 		s.tr.Emit("SeqNext", F{"node": s.node, "kind": kind, "txs": Strs(s.ids.IDs(txs)), "ts": ts})
+		if f := s.AfterNext; f != nil {
+			f(kind)
+		}
 		return res, err
 	}
 	s.mu.Lock()
